@@ -5,10 +5,10 @@ package main
 // evidence when hit.
 
 import (
-	"os"
 	"crypto/md5"
 	"fmt"
 	"go/types"
+	"os"
 	"strings"
 
 	"golang.org/x/tools/go/ssa"
@@ -20,16 +20,16 @@ var intrinsics map[string]intrinsicFn
 
 func init() {
 	base := map[string]intrinsicFn{
-		"fmt.Errorf":   inFmtErrorf,
-		"fmt.Sprintf":  inFmtSprintf,
-		"fmt.Sprint":   inFmtSprint,
-		"fmt.Sprintln": inFmtSprint,
-		"fmt.Fprintf":  inFmtFprintf,
-		"fmt.Println":  inNoop,
-		"fmt.Printf":   inNoop,
-		"errors.As":    inErrorsAs,
-		"errors.Is":    inErrorsIs,
-		"errors.New":   inErrorsNew,
+		"fmt.Errorf":    inFmtErrorf,
+		"fmt.Sprintf":   inFmtSprintf,
+		"fmt.Sprint":    inFmtSprint,
+		"fmt.Sprintln":  inFmtSprint,
+		"fmt.Fprintf":   inFmtFprintf,
+		"fmt.Println":   inNoop,
+		"fmt.Printf":    inNoop,
+		"errors.As":     inErrorsAs,
+		"errors.Is":     inErrorsIs,
+		"errors.New":    inErrorsNew,
 		"errors.Unwrap": inErrorsUnwrap,
 
 		"internal/bytealg.IndexByteString": inIndexByteString,
@@ -49,21 +49,21 @@ func init() {
 		"crypto/md5.New": inMD5New,
 		"crypto/md5.Sum": inMD5Sum,
 
-		"math/rand.Seed":   inNoop,
-		"math/rand.Uint32": inFreshScalar,
-		"time.Now":         inTimeNow,
-		"time.Since":       inTimeSince,
-		"time.Until":       inTimeUntil,
-		"(time.Time).After": inTimeAfter,
-		"(time.Time).Before": inTimeBefore,
-		"(time.Time).Sub":   inTimeSub,
-		"(time.Time).UnixNano": inFreshScalar,
-		"(time.Time).Add":  inTimeAdd,
-		"(time.Time).IsZero": inTimeIsZero,
+		"math/rand.Seed":               inNoop,
+		"math/rand.Uint32":             inFreshScalar,
+		"time.Now":                     inTimeNow,
+		"time.Since":                   inTimeSince,
+		"time.Until":                   inTimeUntil,
+		"(time.Time).After":            inTimeAfter,
+		"(time.Time).Before":           inTimeBefore,
+		"(time.Time).Sub":              inTimeSub,
+		"(time.Time).UnixNano":         inFreshScalar,
+		"(time.Time).Add":              inTimeAdd,
+		"(time.Time).IsZero":           inTimeIsZero,
 		"(time.Duration).Milliseconds": inFreshScalar,
-		"(time.Duration).Seconds": inOpaqueFloat,
+		"(time.Duration).Seconds":      inOpaqueFloat,
 
-		"context.WithValue": inCtxWithValue,
+		"context.WithValue":  inCtxWithValue,
 		"context.Background": inCtxBackground,
 		"context.TODO":       inCtxBackground,
 
@@ -75,12 +75,12 @@ func init() {
 		"(*sync.WaitGroup).Wait": inWGWait,
 		"(*sync.Once).Do":        inOnceDo,
 
-		"net.SplitHostPort": inSplitHostPort,
-		"strconv.Itoa": inItoa,
-		"strings.Join": inStringsJoin,
+		"net.SplitHostPort":            inSplitHostPort,
+		"strconv.Itoa":                 inItoa,
+		"strings.Join":                 inStringsJoin,
 		"(*strings.Builder).String":    inBuilderString,
 		"(*strings.Builder).copyCheck": inNoop,
-		"strconv.FormatBool": inFormatBool,
+		"strconv.FormatBool":           inFormatBool,
 	}
 	if intrinsics == nil {
 		intrinsics = map[string]intrinsicFn{}
